@@ -149,7 +149,7 @@ def draw_case(draw):
                  "m": [[draw(st.integers(-3, 5)) for _ in range(2)] for _ in range(2)],
                  "msec": [[draw(st.booleans()) for _ in range(2)] for _ in range(2)]}
     return {"nvars": g.nvars, "nin": g.nin, "nbool": g.nbool, "init": init, "init_secret": init_secret,
-            "body": body, "a": va, "b": vb, "bitlength": 32, "lists": lists}
+            "body": body, "a": va, "b": vb, "bitlength": 32, "lists": lists, "in_function": draw(st.integers(0, 3)) == 0}
 
 
 # ---- rendering ---------------------------------------------------------------
@@ -205,6 +205,17 @@ def r_cond(c, obl):
 
 
 def render(case, obl):
+    src = _render(case, obl)
+    if obl and case.get("in_function"):
+        # the documented helper-function idiom (examples/branch2.py, test()): the function has its own context under
+        # another name while the module keeps its own `_`
+        body = src.replace("_.", "__.")
+        lines = ["def prog(__):"] + ["    " + l for l in body.split("\n") if l.strip()] + ["    return __", "prog(CTX)"]
+        return "\n".join(lines) + "\n"
+    return src
+
+
+def _render(case, obl):
     L = []
 
     def emit(ind, s):
@@ -316,14 +327,21 @@ def run_oblivious(case, vec, p):
     def B(c):
         return c if isinstance(c, bo.LinCombBool) else bo.LinCombBool(c)
     ns = {"_": br.BranchingValues(), "B": B, "Z": rt.LinComb.ZERO, "if_then_else": br.if_then_else}
+    if case.get("in_function"):
+        ns["CTX"] = ns["_"]                 # the program's own context, passed to the function as `__`
+        ns["_"] = br.BranchingValues()      # the module's context: must stay untouched
+        ns["_"].unrelated = rt.PrivVal(41)
+        ctx_obj = ns["CTX"]
+    else:
+        ctx_obj = ns["_"]
     for nm in ("_if", "_elif", "_else", "_endif", "_while", "_endwhile", "_breakif", "_range", "_endfor"):
         ns[nm] = getattr(br, nm)
     for i, v in enumerate(case["init"]):
-        setattr(ns["_"], "x%d" % i, rt.PrivVal(v) if case["init_secret"][i] else v)
+        setattr(ctx_obj, "x%d" % i, rt.PrivVal(v) if case["init_secret"][i] else v)
     if case.get("lists"):
         L = case["lists"]
-        ns["_"].l = [rt.PrivVal(v) if s_ else v for v, s_ in zip(L["l"], L["lsec"])]
-        ns["_"].m = [[rt.PrivVal(v) if s_ else v for v, s_ in zip(r, rs)] for r, rs in zip(L["m"], L["msec"])]
+        ctx_obj.l = [rt.PrivVal(v) if s_ else v for v, s_ in zip(L["l"], L["lsec"])]
+        ctx_obj.m = [[rt.PrivVal(v) if s_ else v for v, s_ in zip(r, rs)] for r, rs in zip(L["m"], L["msec"])]
     for i, v in enumerate(vec["ins"]):
         ns["a%d" % i] = rt.PrivVal(v)
     for i, v in enumerate(vec["bools"]):
@@ -335,10 +353,14 @@ def run_oblivious(case, vec, p):
     try:
         exec(compile(src, "<c09-oblivious>", "exec"), ns)
     except Exception as ex:
-        stack = ns["_"].stack
-        del stack[:]
+        del ctx_obj.stack[:]
+        del ns["_"].stack[:]
         return None, ex, None
-    ctx = ns["_"]
+    ctx = ctx_obj
+    if case.get("in_function") and (len(ns["_"].stack) or list(ns["_"].vals) != ["unrelated"]):
+        del ns["_"].stack[:]
+        del ctx_obj.stack[:]
+        return [None] * 99, "the module-level context `_` was used by a function that has its own context", None
     finals = []
     leaves = []
     objs = [ctx.vals["x%d" % i] for i in range(case["nvars"])]
@@ -426,6 +448,8 @@ def kinds_in(case):
     walk(case["body"], 0)
     if case.get("lists"):
         out.add("list-variables")
+    if case.get("in_function"):
+        out.add("in-function-with-own-context")
     src = render(case, True)
     if "lambda: (" in src or "(lambda:" in src:
         out.add("lazy-ite")
@@ -449,6 +473,7 @@ def shard(seed, n_examples):
     v = core.drive(test, seed, n_examples)
     if v is not None:
         v.case["oblivious_source"] = render(v.case, True).split("\n")
+        
         v.case["native_source"] = render(v.case, False).split("\n")
         stats.violations.append({"case": v.case, "msg": v.msg, "key": v.key})
     return stats
